@@ -347,6 +347,23 @@ def _stage_structure_on(ctx: Ctx, rule: str, fi, loops, mx_values) -> None:
 # ----------------------------------------------------------------------------
 def rule_score_table(ctx: Ctx, rule: str = "C01-score-table") -> None:
     fi = ctx.func(ORQ + "_get_score_table")
+    # the call that builds the table: estimates are the rows, ground truths the columns, every option reaches its parameter
+    from sa.binder import bind
+    from sa.index import calls_in
+    caller = ctx.func(ORQ + "get_object_results")
+    sites = [c for c in calls_in(caller.node) if isinstance(c.func, ast.Name) and c.func.id == "_get_score_table"]
+    ctx.require(len(sites) == 1, "get_object_results: the call that builds the score table was not found")
+    bnd = bind(sites[0], fi)
+    want_args = {"estimated_objects": "estimated_objects", "ground_truth_objects": "ground_truth_objects", "matching_label_policy": "matching_label_policy",
+                 "matching_method_module": "matching_method_module", "target_labels": "target_labels", "matchable_thresholds": "matchable_thresholds", "transforms": "transforms"}
+    for prm, w in want_args.items():
+        got = bnd.bound.get(prm)
+        if prm == "matching_method_module":
+            ok = got is not None and S(got) in ("matching_method_module", "_get_matching_module(matching_mode)[0]")
+        else:
+            ok = got is not None and S(got) == w
+        ctx.check(ok, rule, "get_object_results", f"table-call:{prm}", f"the score table is built with {prm}=`{S(got) if got is not None else None}`; expected `{w}` (rows = estimates, columns = ground truths)",
+                  fi=caller, expected=w, found=S(got) if got is not None else "None")
     paths = enum_paths(ctx, fi)
     outer = loops_of(paths)
     ctx.require(len(outer) == 1, "_get_score_table: expected one outer loop")
